@@ -216,6 +216,12 @@ var c09Templates = []string{
 	`{"zz":[1,{"y":"}"}], "b" : "\ud83d\nde0#" ,"c":false} `,
 	` {"b":"\ud83d\ude0#","x":{"k":"v\\"},"a":#}`,
 	`{"c"` + "\n" + `:` + "\t" + `false ,"a" : #` + "\r" + `}`,
+	// raw multi-byte characters (2, 3 and 4 bytes) in a value and in an unknown key
+	`{"b":"é€😀?","a":#}`,
+	`{"é€":"😀","b":"?é"}`,
+	// an unknown member whose number is followed by white space; a key spelled with an escape
+	`{"unknown":  1234 ,"a":#}`,
+	`{"\u0062":"?","a":#}`,
 }
 
 // Longer, realistic documents (whitespace in every legal place, unknown members
